@@ -35,6 +35,7 @@ package vm
 //@   ensures[C03.new_inv_layers] sdbLayers(unbox(result, type(*cStateDb)))
 //@   ensures[C03.new_inv_live] sdbLive(unbox(result, type(*cStateDb)))
 //@   ensures[C03.new_inv_sep] sdbSep(unbox(result, type(*cStateDb)))
+//@   ensures[C04.new_abs_view,C05.new_abs_view,C06.new_abs_view] (forall a common.Address :: absBal(unbox(result, type(*cStateDb)), a) >= 0 && absBal(unbox(result, type(*cStateDb)), a) == bankBal[layer(ctx)][addrBytes(a)][evmDenomOf[layer(ctx)]] && absNonce(unbox(result, type(*cStateDb)), a) == acctSeq[layer(ctx)][addrBytes(a)]) && absSupply(unbox(result, type(*cStateDb))) == bankSupply[layer(ctx)][evmDenomOf[layer(ctx)]] && (forall den string :: absSupplyX(unbox(result, type(*cStateDb)), den) == bankSupply[layer(ctx)][den])
 //@   trusted ensures sdbCtxLayer[payload(result)] == layer(ctx)
 //@   trusted ensures forall a common.Address :: sdbBal[payload(result)][a] >= 0 && sdbBal[payload(result)][a] == bankBal[layer(ctx)][addrBytes(a)][evmDenomOf[layer(ctx)]] && sdbNonce[payload(result)][a] == acctSeq[layer(ctx)][addrBytes(a)]
 //@   trusted ensures sdbSupply[payload(result)] == bankSupply[layer(ctx)][evmDenomOf[layer(ctx)]]
@@ -99,6 +100,15 @@ package vm
 //@   invariant tracker != nil && fresh(tracker)
 //@   invariant forall a common.Address :: (a in tracker) == (visited[a] && (a in t))
 //@   invariant forall a common.Address :: (a in tracker) ==> tracker[a] == t[a]
+
+// sortedAddresses: the keys of t, sorted byte-wise (collect loop + sort.Slice with a comparison closure). ASSUMED summary:
+// sort.Slice takes the slice as `any` and a closure (higher-order, generic over the element type), which the engine
+// cannot give a sound frame; what callers use is only that every returned element is a key of t (sort.Slice permutes).
+//@ func (t AccountTracker) sortedAddresses() []common.Address
+//@   assumed
+//@   modifies nothing
+//@   ensures (forall i int :: (0 <= i && i < len(result)) ==> (result[i] in t)) && (len(result) == 0 || fresh(base(result)))
+//@   panics never
 
 // ---------------------------------------------------------------------------------------------
 // state_db_logs.go — Logs (slice of log pointers; the log objects themselves are never mutated by the StateDB)
@@ -477,6 +487,7 @@ package vm
 //@   ensures[C03.mut_touched] forall a common.Address :: (a in d.touched) == (a == address || old(a in d.touched))
 //@   ensures[C04.add_balance] forall a bytes, den string :: bankBal[layer(d.currentCtx)][a][den] == old(bankBal[layer(d.currentCtx)][a][den]) + ((a == addrBytes(address) && den == d.evmDenom) ? bigval[b] : 0)
 //@   ensures[C04.add_supply] forall den string :: bankSupply[layer(d.currentCtx)][den] == old(bankSupply[layer(d.currentCtx)][den]) + (den == d.evmDenom ? bigval[b] : 0)
+//@   ensures[C02.sub_add_balance,C04.sub_add_balance] (forall a common.Address :: absBal(d, a) == old(absBal(d, a)) + (a == address ? bigval[b] : 0)) && absSupply(d) == old(absSupply(d)) + bigval[b] && (forall den string :: den != d.evmDenom ==> absSupplyX(d, den) == old(absSupplyX(d, den))) && (forall a common.Address :: absNonce(d, a) == old(absNonce(d, a)))
 //@   panics any
 
 //@ func (d *cStateDb) SubBalance(address common.Address, b *big.Int)
@@ -486,6 +497,7 @@ package vm
 //@   ensures[C03.mut_touched] forall a common.Address :: (a in d.touched) == (a == address || old(a in d.touched))
 //@   ensures[C04.sub_balance] forall a bytes, den string :: bankBal[layer(d.currentCtx)][a][den] == old(bankBal[layer(d.currentCtx)][a][den]) - ((a == addrBytes(address) && den == d.evmDenom) ? bigval[b] : 0)
 //@   ensures[C04.sub_supply] forall den string :: bankSupply[layer(d.currentCtx)][den] == old(bankSupply[layer(d.currentCtx)][den]) - (den == d.evmDenom ? bigval[b] : 0)
+//@   ensures[C02.sub_sub_balance,C04.sub_sub_balance] (forall a common.Address :: absBal(d, a) == old(absBal(d, a)) - (a == address ? bigval[b] : 0)) && absSupply(d) == old(absSupply(d)) - bigval[b] && (forall den string :: den != d.evmDenom ==> absSupplyX(d, den) == old(absSupplyX(d, den))) && (forall a common.Address :: absNonce(d, a) == old(absNonce(d, a)))
 //@   ensures[C15.sub_only_spendable] bigval[b] > 0 ==> bigval[b] <= old(bankBal[layer(d.currentCtx)][addrBytes(address)][d.evmDenom]) - bankLocked(layer(d.currentCtx), hdr(d.currentCtx), addrBytes(address), d.evmDenom)
 //@   panics any
 
@@ -507,6 +519,7 @@ package vm
 //@   modifies contents(d.touched), acctExists[layer(d.currentCtx)], acctSeq[layer(d.currentCtx)], authVersion[layer(d.currentCtx)], accObjSeq
 //@   ensures[C03.mut_touched] forall a common.Address :: (a in d.touched) == (a == address || old(a in d.touched))
 //@   ensures[C03.mut_set_nonce,C06.set_nonce] acctSeq[layer(d.currentCtx)] == old(acctSeq[layer(d.currentCtx)])[addrBytes(address) := n] && acctExists[layer(d.currentCtx)] == old(acctExists[layer(d.currentCtx)])[addrBytes(address) := true]
+//@   ensures[C02.sub_set_nonce,C06.sub_set_nonce] forall a common.Address :: absNonce(d, a) == (a == address ? n : old(absNonce(d, a)))
 //@   panics never
 
 //@ func (d *cStateDb) SetCode(address common.Address, code []byte)
@@ -549,7 +562,7 @@ package vm
 //@   deterministic[C01.no_node_local_source]
 //@   requires d != nil
 //@   modifies nothing
-//@   ensures[C03.get_refund] result == d.refund
+//@   ensures[C03.get_refund,C02.sub_get_refund,C05.sub_get_refund] result == d.refund
 //@   panics never
 
 //@ func (d *cStateDb) GetTransientState(addr common.Address, key common.Hash) common.Hash
@@ -721,14 +734,53 @@ package vm
 //@   ensures[C03.commit_flushes_innermost_to_original] err == nil && d.committed && viewEq(layer(d.originalCtx), layer(d.currentCtx))
 //@   ensures[C15.commit_destroys_only_marked_or_empty] forall a common.Address :: acctUntouched(layer(d.currentCtx), a) || destroyJustified(d, a, deleteEmptyObjects)
 //@   ensures[C04.commit_supply] forall den string :: bankSupply[layer(d.currentCtx)][den] <= old(bankSupply[layer(d.currentCtx)][den])
+//@   ensures[C04.commit_abs_supplies_only_shrink] forall den string :: bankSupply[layer(d.originalCtx)][den] <= old(absSupplyX(d, den))
+//@   ensures[C06.commit_abs_keeps_live_accounts,C04.commit_abs_keeps_live_accounts] forall a common.Address :: (old(absNonce(d, a)) > 0 && !(a in d.selfDestructed)) ==> (acctSeq[layer(d.originalCtx)][addrBytes(a)] == old(absNonce(d, a)) && bankBal[layer(d.originalCtx)][addrBytes(a)] == old(bankBal[layer(d.currentCtx)][addrBytes(a)]))
 //@   panics any
 //@ loop 1
 //@   modifies view(layer(d.currentCtx)), evlog[payload(d.currentCtx.EventManager())]
-//@   invariant[C15.commit_loop_justified] forall a common.Address :: acctUntouched(layer(d.currentCtx), a) || (visited[a] && destroyJustified(d, a, deleteEmptyObjects))
+//@   invariant[C15.commit_loop_justified,C06.commit_loop_justified,C04.commit_loop_justified] forall a common.Address :: acctUntouched(layer(d.currentCtx), a) || destroyJustified(d, a, deleteEmptyObjects)
+//@   invariant[C04.commit_loop_balances_nonneg] forall a bytes, den string :: bankBal[layer(d.currentCtx)][a][den] >= 0
 //@   invariant[C04.commit_loop_supply] forall den string :: bankSupply[layer(d.currentCtx)][den] <= old(bankSupply[layer(d.currentCtx)][den])
 //@ loop 2
 //@   modifies views, evlog
-//@   invariant[C03.commit_flush_index] -1 <= i && i < len(d.snapshots)
-//@   invariant[C03.commit_flush_progress] viewEq((i >= 0 ? layer(d.snapshots[i].snapshotCtx) : layer(d.originalCtx)), layer(d.currentCtx))
-//@   invariant[C15.commit_flush_keeps_justified] forall a common.Address :: acctUntouched(layer(d.currentCtx), a) || destroyJustified(d, a, deleteEmptyObjects)
+//@   invariant[C03.commit_flush_index,C04.commit_flush_index,C06.commit_flush_index] -1 <= i && i < len(d.snapshots)
+//@   invariant[C03.commit_flush_progress,C04.commit_flush_progress,C06.commit_flush_progress] viewEq((i >= 0 ? layer(d.snapshots[i].snapshotCtx) : layer(d.originalCtx)), layer(d.currentCtx))
+//@   invariant[C15.commit_flush_keeps_justified,C06.commit_flush_keeps_justified,C04.commit_flush_keeps_justified] forall a common.Address :: acctUntouched(layer(d.currentCtx), a) || destroyJustified(d, a, deleteEmptyObjects)
 //@   invariant[C04.commit_flush_keeps_supply] forall den string :: bankSupply[layer(d.currentCtx)][den] <= old(bankSupply[layer(d.currentCtx)][den])
+
+// ---------------------------------------------------------------------------------------------
+// Behavioural subtyping of *cStateDb against the corevm.StateDB interface contracts of /verif/prelude/31_geth_vm.spec
+// (C02 partial) and VERIFIED twins of the trusted link clauses of NewStateDB / CommitMultiStore (C04, C05, C06).
+//
+// The interface contracts speak about ghost VARIABLES sdbBal / sdbNonce / sdbSupply / sdbSupplyX / sdbRefund /
+// sdbCodeHash indexed by the StateDB object. No code writes ghost variables, so for the concrete type the view is given
+// by the ABSTRACTION FUNCTIONS below (functions of the live layer and of the object's fields). Each clause [C02.sub_*] is
+// the interface clause of the same method with sdbX[payload(db)] replaced by absX(d, ..), proved on the concrete body:
+// the concrete method satisfies the interface contract under the abstraction. What stays trusted is only the
+// identification "sdbX[obj] denotes absX(obj)" (the `trusted ensures` of NewStateDB and the interface-level summary of
+// CommitMultiStore), no longer any behaviour.
+// ---------------------------------------------------------------------------------------------
+//@ ghost macro absBal(d *cStateDb, a common.Address) int = bankBal[layer(d.currentCtx)][addrBytes(a)][d.evmDenom]
+//@ ghost macro absNonce(d *cStateDb, a common.Address) int = acctSeq[layer(d.currentCtx)][addrBytes(a)]
+//@ ghost macro absSupply(d *cStateDb) int = bankSupply[layer(d.currentCtx)][d.evmDenom]
+//@ ghost macro absSupplyX(d *cStateDb, den string) int = bankSupply[layer(d.currentCtx)][den]
+//@ ghost macro absCodeHash(d *cStateDb, a common.Address) common.Hash = (evmCodeHash[layer(d.currentCtx)][addrBytes(a)] != zero(type(common.Hash)) ? evmCodeHash[layer(d.currentCtx)][addrBytes(a)] : (acctExists[layer(d.currentCtx)][addrBytes(a)] ? emptyCodeHash() : zero(type(common.Hash))))
+
+//@ func (d *cStateDb) GetNonce(address common.Address) uint64
+//@   requires d != nil
+//@   modifies nothing
+//@   ensures[C02.sub_get_nonce,C06.sub_get_nonce] result == absNonce(d, address)
+//@   panics never
+
+//@ func (d *cStateDb) GetBalance(address common.Address) *big.Int
+//@   requires d != nil && d.bankKeeper != nil
+//@   modifies nothing
+//@   ensures[C02.sub_get_balance,C04.sub_get_balance] result != nil && fresh(result) && bigval[result] == absBal(d, address)
+//@   panics never
+
+//@ func (d *cStateDb) GetCodeHash(address common.Address) common.Hash
+//@   requires d != nil && d.evmKeeper != nil
+//@   modifies nothing
+//@   ensures[C02.sub_get_code_hash,C06.sub_get_code_hash] result == absCodeHash(d, address)
+//@   panics never
